@@ -2,7 +2,7 @@
 // design.postprocess() (records whether it throws the CDC DesignError) and, separately, calls
 // hlim::inferClockDomains / hlim::detectUnguardedCDCCrossings directly on the graph before and after
 // post-processing, dumping the graph structure, the per-port domain map and the flagged nodes.
-// Usage: c12 <seed> <ncases> <statements-per-design>   |   c12 replay <subseed> <statements-per-design>  (one design, as printed in its `case` line)
+// Usage: c12 <seed> <ncases> <statements-per-design>   |   c12 replay <subseed> <statements-per-design>  (one design, as printed in its `case` line)   |   c12 fixed  (hand-written designs)
 #include <gatery/pch.h>
 #include <gatery/frontend.h>
 #include <gatery/scl/cdc.h>
@@ -567,7 +567,106 @@ struct Gen {
 
 // ------------------------------------------------------------------------------------------------
 
-static void runCase(uint64_t id, Rng rng, size_t nstParam)
+// hand-written designs with known verdict (the upstream unit tests of tests/frontend/CDC.cpp, pinned out, plus the corner cases of the property)
+static const int numFixed = 10;
+static bool buildFixed(int which, std::map<std::string, unsigned> &hist)
+{
+	Clock clock1({ .absoluteFrequency = 10'000 });
+	Clock clock2({ .absoluteFrequency = 10'000 });
+	hist["fixed." + std::to_string(which)]++;
+	auto out = [](const UInt &x, const Clock &c, const char *name) { ClockScope cs(c); pinOut(x).setName(name); };
+	auto in = [](const Clock &c, const char *name) { ClockScope cs(c); UInt x = pinIn(8_b).setName(name); return x; };
+	switch (which) {
+		case 0: { // unintentionalCDCDetection
+			UInt a = 8_b, b = 8_b;
+			{ ClockScope cs(clock1); a = reg(b, 0); }
+			{ ClockScope cs(clock2); b = reg(a, 0); }
+			out(a, clock1, "a"); out(b, clock2, "b");
+			return true;
+		}
+		case 1: { // intentionalCDCDetection
+			UInt a = 8_b, b = 8_b;
+			{ ClockScope cs(clock1); a = reg(b, 0); }
+			out(a, clock1, "a");
+			a = allowClockDomainCrossing(a, clock1, clock2);
+			{ ClockScope cs(clock2); b = reg(a, 0); }
+			out(b, clock2, "b");
+			b = allowClockDomainCrossing(b, clock2, clock1);
+			return false;
+		}
+		case 2: { // unintentionalCDCDetectionMemory: the order dependency between the ports carries clock1's domain into the clock2 port
+			UInt a = in(clock1, "ia"), b = in(clock2, "ib");
+			Memory<UInt> mem(42, 8_b);
+			{ ClockScope cs(clock1); a = mem[a.lower(6_b)]; a = reg(a, 0); }
+			{ ClockScope cs(clock2); mem[b.lower(6_b)] = b; b += 1; b = reg(b, 0); }
+			out(a, clock1, "a"); out(b, clock2, "b");
+			return true;
+		}
+		case 3: { // noUnintentionalCDCDetectionMemoryNoConflict
+			UInt a = in(clock1, "ia"), b = in(clock2, "ib");
+			Memory<UInt> mem(42, 8_b);
+			mem.noConflicts();
+			{ ClockScope cs(clock1); a = mem[a.lower(6_b)]; }
+			{ ClockScope cs(clock2); mem[b.lower(6_b)] = b; b += 1; b = reg(b); }
+			out(a, clock1, "a"); out(b, clock2, "b");
+			return false;
+		}
+		case 4: { // derived clock that only changes register attributes shares the pin: one domain
+			Clock d = clock1.deriveClock({ .resetType = Clock::ResetType::ASYNCHRONOUS });
+			UInt a = in(clock1, "ia");
+			{ ClockScope cs(d); a = reg(a, 0); }
+			{ ClockScope cs(clock1); a = reg(a + 1, 0); }
+			out(a, d, "a");
+			return false;
+		}
+		case 5: { // derived clock with another frequency: another pin, another domain
+			Clock d = clock1.deriveClock({ .frequencyMultiplier = hlim::ClockRational{ 2, 1 } });
+			UInt a = in(clock1, "ia");
+			{ ClockScope cs(d); a = reg(a, 0); }
+			out(a, d, "a");
+			return true;
+		}
+		case 6: { // marker declared the wrong way round
+			UInt a = in(clock1, "ia");
+			a = allowClockDomainCrossing(a, clock2, clock1);
+			{ ClockScope cs(clock2); a = reg(a, 0); }
+			out(a, clock2, "a");
+			return true;
+		}
+		case 7: { // marker declared with clocks that share the pins with the real source / destination
+			Clock d1 = clock1.deriveClock({ .resetType = Clock::ResetType::ASYNCHRONOUS });
+			Clock d2 = clock2.deriveClock({ .resetName = "otherReset" });
+			UInt a = in(clock1, "ia");
+			a = allowClockDomainCrossing(a, d1, d2);
+			{ ClockScope cs(clock2); a = reg(a, 0); }
+			out(a, d2, "a");
+			return false;
+		}
+		case 8: { // two domains combined in a gate, far away from any register
+			UInt a = in(clock1, "ia"), b = in(clock2, "ib");
+			UInt c = (a ^ 5) + (~b);
+			UInt d = allowClockDomainCrossing(c, clock1, clock2);
+			out(d, clock2, "d");
+			return true;
+		}
+		default: { // a long correctly marked chain through a hierarchy, with register feedback
+			Clock d2 = clock2.deriveClock({ .synchronizationRegister = true });
+			UInt a = in(clock1, "ia");
+			UInt cnt = 8_b;
+			{
+				Area area("inner", true);
+				UInt s = scl::synchronize(a + cnt, clock1, clock2, { .outStages = 3 });
+				{ ClockScope cs(d2); s = reg(s ^ 1, 0); }
+				area.leave();
+				out(s, clock2, "s");
+			}
+			{ ClockScope cs(clock1); cnt = reg(cnt + 1, 0); }
+			return false;
+		}
+	}
+}
+
+static void runCase(uint64_t id, Rng rng, size_t nstParam, int fixed = -1)
 {
 	// replay of exactly this design: c12 replay <subseed> <statements>
 	o << "case " << id << ' ' << rng.s << ' ' << nstParam << '\n';
@@ -576,7 +675,7 @@ static void runCase(uint64_t id, Rng rng, size_t nstParam)
 	Gen gen(rng);
 	bool multi = !rng.chance(1, 10);
 	std::string buildErr;
-	try { gen.build(nst, multi); }
+	try { if (fixed >= 0) { multi = true; gen.intent = buildFixed(fixed, gen.hist); } else gen.build(nst, multi); }
 	catch (const std::exception &e) { buildErr = e.what(); }
 	if (!buildErr.empty()) {
 		// the generator produced something the frontend refuses: not a CDC case
@@ -639,7 +738,10 @@ int main(int argc, char **argv)
 	int devnull = open("/dev/null", O_WRONLY);
 	if (devnull >= 0) dup2(devnull, 2);
 
-	if (replay) {
+	if (argc > 1 && std::string(argv[1]) == "fixed") {
+		o << "# prop=C12 fixed designs\n";
+		for (int k = 0; k < numFixed; k++) runCase(k, Rng(k), 0, k);
+	} else if (replay) {
 		o << "# prop=C12 replay subseed=" << ncases << " statements=" << nst << "\n";
 		runCase(0, Rng(ncases), nst);
 	} else {
